@@ -1,5 +1,32 @@
 import RzmqModel.Model.Routing
-/-! Helper lemmas. -/
+/-! Helper lemmas for C17 (reconnect back-off arithmetic). -/
 namespace Rzmq
+
+theorem pow_min_succ_le (k : Nat) : 2 ^ (min (k + 1) 31) ≤ 2 * 2 ^ (min k 31) := by
+  rw [← Nat.pow_succ']
+  exact Nat.pow_le_pow_right (by decide) (by omega)
+
+theorem pow_min_mono (k : Nat) : 2 ^ (min k 31) ≤ 2 ^ (min (k + 1) 31) :=
+  Nat.pow_le_pow_right (by decide) (by omega)
+
+theorem pow_min_le (k : Nat) : 2 ^ (min k 31) ≤ 2 ^ 31 :=
+  Nat.pow_le_pow_right (by decide) (by omega)
+
+/-- the connecter's fast-forward loop: `n` capped doublings of `base` -/
+theorem foldl_double_cap (m : Nat) (n : Nat) (base : Nat) (hb : base ≤ m) :
+    (List.range n).foldl (fun d _ => min (2 * d) m) base = min (base * 2 ^ n) m := by
+  induction n with
+  | zero => simp; omega
+  | succ n ih =>
+    rw [List.range_succ, List.foldl_append, ih]
+    simp only [List.foldl_cons, List.foldl_nil]
+    rw [Nat.pow_succ, ← Nat.mul_assoc]
+    omega
+
+theorem foldl_double_cap_le (m : Nat) (l : List Nat) (base : Nat) (hb : base ≤ m) :
+    l.foldl (fun d _ => min (2 * d) m) base ≤ m := by
+  induction l generalizing base with
+  | nil => simpa using hb
+  | cons a l ih => simp only [List.foldl_cons]; exact ih _ (by omega)
 
 end Rzmq
